@@ -427,7 +427,11 @@ def hirshfeld(ctx):
         n = len(nums)
         coords = GEOMS[gname][:n]
         pts = point_set(coords, ctx.seed)
-        pts = pts[np.linalg.norm(pts, axis=1) < 12]  # pro-atom tables end; stay inside them
+        # near points, points far inside the tabulated range of the pro-atom densities (they end at 90 - 125 bohr) and
+        # points beyond every table (added after seeded change C06-H was missed: no continuation beyond the table gives
+        # 0/0 there); the reference continues the spline exactly as documented for scipy's CubicSpline
+        pts = np.vstack([pts[np.linalg.norm(pts, axis=1) < 12], pts[np.linalg.norm(pts, axis=1) >= 12],
+                         np.array([[70.0, -20.0, 5.0], [0.0, 0.0, 88.0], [150.0, 10.0, 0.0], [-300.0, 200.0, 100.0], [0.0, 1200.0, 0.0]])])
         dens = np.array([rho(int(z), np.linalg.norm(pts - c, axis=1)) for z, c in zip(nums, coords)])
         want_all = dens / dens.sum(axis=0)
         total = np.zeros(len(pts))
@@ -439,7 +443,10 @@ def hirshfeld(ctx):
             got = np.asarray(hw(pts, coords, nums, idx), dtype=float)
             total += got
             ctx.nontrivial(("hirsh", tuple(nums), a), section="hirshfeld")
-            if _gt(np.max(np.abs(got - want_all[a])), 1e-12):
+            if not np.all(np.isfinite(got)):
+                ctx.violation("hirshfeld:non-finite-weights", f"atom {a} of {nums.tolist()}: non-finite weights at "
+                              f"{pts[~np.isfinite(got)][0].tolist()} ({int(np.sum(~np.isfinite(got)))} points)", case)
+            elif _gt(np.max(np.abs(got - want_all[a])), 1e-12):
                 ctx.violation("hirshfeld:not-the-proatom-density-share", f"atom {a} of {nums.tolist()}: max deviation "
                               f"{np.max(np.abs(got - want_all[a])):.3e}", case)
         if _gt(np.max(np.abs(total - 1.0)), 1e-12):
